@@ -27,6 +27,12 @@ Inductive rcode := R (ln lm le la sn sl se sa : N).
    every page is a coded list of names *)
 Record pg := { pg_limit : nat; pg_list : option (list N); pg_stream : option (list N) }.
 
+(* StreamListDirectoryEntries with a callback that answers from sq_ans (true once exhausted) *)
+Record stopreq := { sq_start : string; sq_incl : bool; sq_limit : nat; sq_ans : list bool;
+                    sq_names : N; sq_last : N; sq_err : N; sq_after : N }.
+(* the loop of FilerServer.ListEntries with overall limit gq_limit and page size gq_pag *)
+Record grpcreq := { gq_limit : nat; gq_pag : nat; gq_pages : option (list N) }.
+
 Record case := {
   kind : store;
   dir : dirst;
@@ -35,7 +41,10 @@ Record case := {
   globs : list (string * string * bool);     (* filepath.Match(pattern, name) for the pairs the case uses *)
   starts : list string; limits : list nat;
   res : list rcode;                          (* per start, per inclusive in [false; true], per limit *)
-  pages : list pg }.
+  pages : list pg;
+  stops : list stopreq;
+  grpcs : list grpcreq;
+  splits : list (string * (string * string)) }. (* the implementation's splitPattern on fixed probes *)
 
 Definition foreign : string := "<not a child>".
 Definition nth_name (tbl : list string) (i : N) : string :=
@@ -75,9 +84,10 @@ Definition obs_eqb (m i : obs) : bool :=
 
 Definition hang_obs : obs := {| ob_names := []; ob_more := false; ob_last := ""; ob_err := 1; ob_after := [] |}.
 
-(* the only remaining finding: prefix and pattern given together *)
+(* finding 0: prefix and pattern given together, narrowed to the requests not proved exact *)
 Definition trig (prefix pat : string) : option N :=
-  if trig_both prefix pat then Some 0%N else None.
+  if trig_narrow prefix pat then Some 0%N else None.
+
 
 (* one request: (corr, prop, trigger) *)
 Definition req_result := (bool * bool * option N)%type.
@@ -152,25 +162,65 @@ Definition check_pg (c : case) (p : pg) : list req_result :=
             end in
   [ (opages_eqb ml il, pl, t); (opages_eqb ms is_, ps, None) ].
 
+(* a callback that stops: the entries up to and including the one it refused, at most limit *)
+Definition check_stop (c : case) (q : stopreq) : list req_result :=
+  let tbl := map ename (dir c) in
+  let M := spec_names (dir c) (sq_start q) (sq_incl q) (prefix c) (pat c) (excl c) in
+  let m := match stream_list_s (kind c) (dir c) (sq_start q) (sq_incl q) (sq_limit q) (prefix c) (pat c) (excl c) (sq_ans q) with
+           | None => hang_obs
+           | Some r => {| ob_names := s_names r; ob_more := false; ob_last := s_last r; ob_err := 0; ob_after := map ename (s_dir r) |}
+           end in
+  let i := {| ob_names := names_of tbl (sq_names q); ob_more := false; ob_last := nth_name tbl (sq_last q);
+              ob_err := sq_err q; ob_after := dec_set tbl 0 (sq_after q) |} in
+  let want := match first_false (sq_ans q) with
+              | Some k => Nat.min (sq_limit q) (S k)
+              | None => sq_limit q
+              end in
+  let p := N.eqb (ob_err i) 0 && strs_eqb (ob_names i) (firstn want M) && live_kept (dir c) (ob_after i) in
+  let t := match trig (prefix c) (pat c) with
+           | Some k => Some k
+           | None => if trig_stop (sq_ans q) then Some 1%N else None
+           end in
+  [ (obs_eqb m i, p, t) ].
+
+(* the gRPC loop sends exactly the first gq_limit matches of the prefix listing *)
+Definition check_grpc (c : case) (g : grpcreq) : list req_result :=
+  let tbl := map ename (dir c) in
+  let M0 := spec_names (dir c) "" false (prefix c) "" "" in
+  let m := grpc_list 40 (kind c) (dir c) "" false (gq_limit g) (gq_pag g) (prefix c) in
+  let i := option_map (map (names_of tbl)) (gq_pages g) in
+  let p := match i with
+           | Some pgs => strs_eqb (List.concat pgs) (firstn (gq_limit g) M0) && all_within (gq_pag g) pgs
+           | None => false
+           end in
+  [ (opages_eqb m i, p, Some 1%N) ].
+
+Definition split_ok (x : string * (string * string)) : bool :=
+  let '(p, (a, b)) := x in
+  String.eqb (fst (split_pattern p)) a && String.eqb (snd (split_pattern p)) b.
+
 Definition glob_ok (g : string * string * bool) : bool :=
   let '(p, n, b) := g in Bool.eqb (glob p n) b.
 
 Definition check (c : case) : outcome :=
-  let pre := wfb (dir c) && forallb glob_ok (globs c) &&
+  let pre := wfb (dir c) && forallb glob_ok (globs c) && forallb split_ok (splits c) &&
              plain_pattern (pat c) && plain_pattern (excl c) &&
              String.eqb (fst (split_pattern (pat c))) (fst (split c)) &&
              String.eqb (snd (split_pattern (pat c))) (snd (split c)) in
   match zip_grid c (grid_of (starts c) (limits c)) (res c) with
   | None => {| o_corr := false; o_prop := true; o_trig := None; o_nontrivial := false |}
   | Some rq =>
-      let all := rq ++ flat_map (check_pg c) (pages c) in
+      let all := rq ++ flat_map (check_pg c) (pages c) ++ flat_map (check_stop c) (stops c) ++
+                 flat_map (check_grpc c) (grpcs c) in
       let failing := filter (fun r => negb (snd (fst r))) all in
       {| o_corr := pre && forallb (fun r => fst (fst r)) all;
          o_prop := is_nil failing;
          (* a case is a known finding only if EVERY failing request is inside a trigger set *)
          o_trig := if forallb (fun r => match snd r with Some _ => true | None => false end) failing
                    then match failing with r :: _ => snd r | [] => None end else None;
-         o_nontrivial := existsb (fun r => let 'R ln _ le _ _ _ _ _ := r in N.eqb le 0 && negb (N.eqb ln 0)) (res c) |}
+         o_nontrivial := existsb (fun r => let 'R ln _ le _ _ _ _ _ := r in N.eqb le 0 && negb (N.eqb ln 0)) (res c) ||
+                         existsb (fun q => N.eqb (sq_err q) 0 && negb (N.eqb (sq_names q) 0)) (stops c) ||
+                         existsb (fun g => match gq_pages g with Some (_ :: _) => true | _ => false end) (grpcs c) |}
   end.
 
 Definition summarize_cases (l : list case) : summary := summarize check l.
